@@ -48,6 +48,14 @@ def make_files(tier):
         if o.get("res") != "ok" or w["stop"] != len(o["sink"]) or len(w["blocks"]) != 3:
             raise common.ToolError(f"could not produce the reference file for {c['codec']}: {json.dumps(w)[:300]}")
         files.append({"codec": c["codec"], "bytes": o["sink"], "hlen": o["build"]["sink_len"], "blocks": w["blocks"], "values": vals})
+    # a block of 70 objects (its count takes two bytes), null codec
+    vals70 = [container.item_value(i, "v") for i in range(70)]
+    ops70 = [{"op": "serialize", "pres": container.item_pres(G, v)} for v in vals70] + [{"op": "into_inner"}]
+    c70 = container.writer_cmd(G, "null", 10 ** 6, ops70, cid=0)
+    o70, w70 = container.run_writer_sessions([c70])
+    if o70[0].get("res") != "ok" or w70[0]["stop"] != len(o70[0]["sink"]) or len(w70[0]["blocks"]) != 1:
+        raise common.ToolError("could not produce the 70-object reference file")
+    files.append({"codec": "null", "bytes": o70[0]["sink"], "hlen": o70[0]["build"]["sink_len"], "blocks": w70[0]["blocks"], "values": vals70})
     # items that carry a decimal and a fixed (their bytes are read with read_exact, not through the string / bytes paths): null and deflate
     G2 = scopes.flatten(scopes.rec("ns.Priced", [("a", scopes.prim("long")), ("d", scopes.prim("bytes", lt="decimal", prec=20, scale=2)),
                                                 ("f", scopes.fixed("ns.F6", 6)), ("s", scopes.prim("string"))]))["nodes"]
@@ -223,7 +231,7 @@ def run(tier, seed):
                     continue
                 d = reencode_block_header(f, bi, dc, ds)
                 for rd in readers[:3]:
-                    add(f, d, "named", f"block {bi} {what}", rd, shape=header_shape(f, bi, dc, ds))
+                    add(f, d, "named_ends", f"block {bi} {what}", rd, shape=header_shape(f, bi, dc, ds))
             # hostile block headers: counts and sizes no block can have (negative, 2^62, i64::MIN/MAX, beyond the allocation cap) and
             # a count of zero over a non-empty payload: reported as errors, without panic, abort, endless loop or huge allocation
             hostile = [(c, None) for c in (0, -1, -(2 ** 63), 2 ** 63 - 1, 2 ** 62, 2 ** 31, 2 ** 32, 10 ** 6) if c != b["count"]] + \
@@ -281,7 +289,7 @@ def run(tier, seed):
             continue
         if o.get("init") != "ok":
             # the header itself is damaged / cut: an error at open is the report; nothing else to check (no value was yielded)
-            if damage in ("named", "sync") and "header sync" not in what:
+            if damage in ("named", "named_ends", "sync") and "header sync" not in what:
                 rep.violation(f"{f['codec']} file, {what}: reader failed to open an intact header", {"fam": "reader_damage", "cmd": c, "codec": f["codec"], "damage": damage},
                               observed=o)
             continue
